@@ -5,7 +5,7 @@ CONSTANTS
   MaxTree = 4
   Depth = 0
 INIT Init
-NEXT Next
+NEXT MCNext
 VIEW StateView
 INVARIANTS TypeOK STHFaithful DupStable SCTBindsStored SingleIndex QueueSound
 PROPERTIES AppendOnly
